@@ -42,7 +42,6 @@ func (f *FilterData) SelectorMatch(item any) bool {
 		}
 
 		fieldname := t.Field(i).Name
-		value := field.Elem().Interface()
 
 		itemV := reflect.ValueOf(item).Elem()
 		itemF := itemV.FieldByName(fieldname)
@@ -55,13 +54,38 @@ func (f *FilterData) SelectorMatch(item any) bool {
 			return false
 		}
 
-		itemValue := itemF.Elem().Interface()
-		if itemValue != value {
+		// compare the values and not the named types, the same element
+		// does not always have the same type in the selectors and in the data
+		if !sameSimpleValue(itemF.Elem(), field.Elem()) {
 			return false
 		}
 	}
 
 	return true
+}
+
+// check if two values of a simple kind are equal, even if they are of different named types
+func sameSimpleValue(a, b reflect.Value) bool {
+	if a.Kind() == b.Kind() {
+		switch a.Kind() {
+		case reflect.Uint, reflect.Uint8, reflect.Uint16, reflect.Uint32, reflect.Uint64:
+			return a.Uint() == b.Uint()
+		case reflect.Int, reflect.Int8, reflect.Int16, reflect.Int32, reflect.Int64:
+			return a.Int() == b.Int()
+		case reflect.String:
+			return a.String() == b.String()
+		case reflect.Bool:
+			return a.Bool() == b.Bool()
+		case reflect.Float32, reflect.Float64:
+			return a.Float() == b.Float()
+		}
+	}
+
+	if !a.CanInterface() || !b.CanInterface() {
+		return false
+	}
+
+	return a.Interface() == b.Interface()
 }
 
 // Get the field for a given functionType
